@@ -10,6 +10,7 @@ PROPERTY_MODULES = {
     "C16": ["contracts.c16"],
     "C03": ["contracts.c03"],
     "C04": ["contracts.c04"],
+    "C05": ["contracts.c05"],
 }
 
 
